@@ -271,7 +271,7 @@ class AlterOracle:
         self.pending.append((final, steps))
 
     # ------------------------------------------------------------------ sequences of ALTERs on one table
-    def sequences(self, ex):
+    def sequences(self, ex, extra_modes=("bigquery", "hql", "oracle", "mssql")):
         """what a table looks like after SEVERAL ALTER statements: every column entry keeps the documented shape, the column list
         is the one the statements declare one after the other (nothing memoised from an earlier statement survives a later one)"""
         ctx, C = self.ctx, self.C
@@ -366,7 +366,7 @@ class AlterOracle:
                     ex.add("O-final", f"alter sequence `{label}`: the table is not what the statements declare one after the other", bad, wit)
                     continue
                 # ... and no output mode turns the script into an error or changes the common part of the target table
-                for mode in ("bigquery", "hql", "oracle", "mssql"):
+                for mode in extra_modes:
                     self.checked += 1
                     try:
                         om = self.fmt(ctx, copy.deepcopy(self.base) + [copy.deepcopy(stmt(ti, n)) for n in names], mode)
@@ -621,7 +621,7 @@ def matches_index(exp, got):
     return True
 
 
-def check_sequences(ck, ctx, rule="O-final"):
+def check_sequences(ck, ctx, rule="O-final", extra_modes=("bigquery", "hql", "oracle", "mssql")):
     """the ALTER sequences alone (without exploring the alter fragment), as obligations of a check"""
     orc = AlterOracle(ctx, None, classes(ctx))
 
@@ -632,7 +632,7 @@ def check_sequences(ck, ctx, rule="O-final"):
         def add(self, r, key, detail, witness):
             self.found.append((key, detail, witness))
     col = _Col()
-    orc.sequences(col)
+    orc.sequences(col, extra_modes=extra_modes)
     for key, detail, wit in col.found:
         ck.ob(rule, key, False, detail, "output layer (evaluated abstractly) on CREATE TABLE x4 + several ALTER statements", witness=wit)
     ck.ob(rule, f"alter sequences: all {orc.checked} scripts", not col.found or True,
